@@ -1,22 +1,49 @@
 /-! Hand-written expectations the regenerated SMTP literal facts are compared with. -/
 namespace MaddyVerif.Expect.SmtpLits
 
-/-- Literals whose codes are not compile-time constants, each explained:
-* `check_action.go` (ReasonOverride) and `msgpipeline/config.go`: codes come from the `reject`
-  directive parsers, modelled as `parseReject` and proved coherent (C16_reject_*);
-* `check_action.go` `code`/`enchCode`: the same parser's return statement;
-* `check_runner.go`: DMARC reject, 550/5.7.1 or 450/4.7.1 chosen together (covered in C07);
-* `milter.go`: the milter's own reply code, class derived from it;
-* `smtpconn.go`, `smtp_downstream.go`: pass-through of the *remote server's* reply
-  (not generated by maddy). -/
-def dynamicLits : List (String × String × String) := [
-  ("framework/config/module/check_action.go", "cfa.ReasonOverride.Code", "cfa.ReasonOverride.EnhancedCode"),
-  ("framework/config/module/check_action.go", "code", "enchCode"),
-  ("internal/check/milter/milter.go", "act.SMTPCode", "exterrors.EnhancedCode{act.SMTPCode / 100, 7, 1}"),
-  ("internal/msgpipeline/check_runner.go", "code", "enchCode"),
-  ("internal/msgpipeline/config.go", "code", "enchCode"),
-  ("internal/smtpconn/smtpconn.go", "err.Code", "exterrors.EnhancedCode(err.EnhancedCode)"),
-  ("internal/target/smtp/smtp_downstream.go", "err.Code", "exterrors.EnhancedCode(err.EnhancedCode)")
+/-- Every place under the tree that builds an `exterrors.SMTPError` whose Code / EnhancedCode are not
+compile-time constants — (file, function, Code expression, EnhancedCode expression, and for codes given by plain
+identifiers every definition / assignment of them in that function, in source order) — each explained by a model
+function and a theorem for all inputs of the computation:
+* `check_action.go: Apply`: the override is copied field by field from the parsed directive
+  (`Errors.applyOverride`, `parseAction`; `C16_fail_action_override_coherent`, `C16_fail_action_refusal_coherent`);
+* `check_action.go: ParseRejectDirective`, `msgpipeline/config.go: parseRejectDirective`: `Errors.parseReject`
+  (`derive` = true / false; `C16_reject_directive_coherent`, known finding `C16_pipeline_reject_4yz_counterexample`);
+* `check_runner.go: applyResults`: the DMARC rejection, 550 / 5.7.1 turned into 450 / 4.7.1 TOGETHER for a
+  temperror (`Errors.dmarcCode`, `dmarcEnch`; `C16_dmarc_rejection_coherent`);
+* `milter.go: handleAction`: the milter's own reply code, class derived from it (`Errors.milterReply`,
+  `C16_milter_reply_coherent`);
+* `smtpconn.go: wrapClientErr`, `smtp_downstream.go: BodyNonAtomic`: the next hop's reply passed on
+  (`Errors.wrapClientErr`, `lmtpStatus`; `C16_relayed_reply_coherent`, `C16_lmtp_status_coherent`). -/
+def dynamicLits : List (String × String × String × String × String) := [
+  ("framework/config/module/check_action.go", "Apply", "cfa.ReasonOverride.Code", "cfa.ReasonOverride.EnhancedCode", ""),
+  ("framework/config/module/check_action.go", "ParseRejectDirective", "code", "enchCode", "code := 554; enchCode := exterrors.EnhancedCode{0, 7, 0}; enchCode, err = parseEnhancedCode(args[1]); code, err = strconv.Atoi(args[0]); enchCode[0] = code / 100; enchCode[0] = 5"),
+  ("internal/check/milter/milter.go", "handleAction", "act.SMTPCode", "exterrors.EnhancedCode{act.SMTPCode / 100, 7, 1}", ""),
+  ("internal/msgpipeline/check_runner.go", "applyResults", "code", "enchCode", "code := 550; enchCode := exterrors.EnhancedCode{5, 7, 1}; code = 450; enchCode[0] = 4"),
+  ("internal/msgpipeline/config.go", "parseRejectDirective", "code", "enchCode", "code := 554; enchCode := exterrors.EnhancedCode{5, 7, 0}; enchCode, err = parseEnhancedCode(node.Args[1]); code, err = strconv.Atoi(node.Args[0])"),
+  ("internal/smtpconn/smtpconn.go", "wrapClientErr", "err.Code", "exterrors.EnhancedCode(err.EnhancedCode)", ""),
+  ("internal/target/smtp/smtp_downstream.go", "BodyNonAtomic", "err.Code", "exterrors.EnhancedCode(err.EnhancedCode)", "")
+]
+
+/-- Assignments to the Code / EnhancedCode field of an error value after it was built:
+* `session.go: wrapErr` = `Errors.wrapErr`, `queue.go: toSMTPErr` = `Errors.toSMTPErr` (the two conversions,
+  defaults overridden by the annotation fields);
+* `smtpconn.go: wrapClientErr`: 552 rewritten to 452 with the class of the enhanced code
+  (`Errors.rewrite552`, `C16_rewrite_552_is_452`). -/
+def fieldWrites : List (String × String × String) := [
+  ("internal/endpoint/smtp/session.go", "wrapErr", "res.Code = 451"),
+  ("internal/endpoint/smtp/session.go", "wrapErr", "res.Code = ctxCode"),
+  ("internal/endpoint/smtp/session.go", "wrapErr", "res.EnhancedCode = smtp.EnhancedCode(ctxEnchCode)"),
+  ("internal/endpoint/smtp/session.go", "wrapErr", "res.Code = smtpErr.Code"),
+  ("internal/endpoint/smtp/session.go", "wrapErr", "res.EnhancedCode = smtpErr.EnhancedCode"),
+  ("internal/smtpconn/smtpconn.go", "wrapClientErr", "err.Code = 452"),
+  ("internal/smtpconn/smtpconn.go", "wrapClientErr", "err.EnhancedCode[0] = 4"),
+  ("internal/target/queue/queue.go", "toSMTPErr", "res.Code = 451"),
+  ("internal/target/queue/queue.go", "toSMTPErr", "res.EnhancedCode = smtp.EnhancedCode{4, 0, 0}"),
+  ("internal/target/queue/queue.go", "toSMTPErr", "res.Code = ctxCode"),
+  ("internal/target/queue/queue.go", "toSMTPErr", "res.EnhancedCode = smtp.EnhancedCode(ctxEnchCode)"),
+  ("internal/target/queue/queue.go", "toSMTPErr", "res.Code = smtpErr.Code"),
+  ("internal/target/queue/queue.go", "toSMTPErr", "res.EnhancedCode = smtpErr.EnhancedCode")
 ]
 
 end MaddyVerif.Expect.SmtpLits
